@@ -33,6 +33,8 @@ from vlib.rules import _seq, _receiver_start, _closure, _as_block
 
 
 def _subst(ens, written_for, param):
+    from vlib.rules import follow_renames
+    ens = follow_renames(ens, but_not=(written_for, param))      # locals of the function named in the ghost contract
     if not written_for or written_for == param:
         return ens
     return re.sub(r'(?<![\w.])%s\b' % re.escape(written_for), param, ens)
